@@ -34,6 +34,33 @@ class NoRendering(Exception):
     pass
 
 
+_UF_CACHE = {}
+
+
+def has_uninterpreted(t):
+    """does the term apply an uninterpreted FUNCTION (library behaviour left abstract: x**y, hsv, str.lower...)?
+    Then a model's value for it is any value, not the one CPython computes: such paths are not compared."""
+    todo, seen = [t], set()
+    while todo:
+        x = todo.pop()
+        k = x.get_id()
+        if k in seen:
+            continue
+        seen.add(k)
+        if k in _UF_CACHE:
+            if _UF_CACHE[k]:
+                return True
+            continue
+        if z3.is_app(x):
+            if x.num_args() > 0 and x.decl().kind() == z3.Z3_OP_UNINTERPRETED:
+                _UF_CACHE[k] = True
+                return True
+            todo.extend(x.children())
+        elif z3.is_quantifier(x):
+            todo.append(x.body())
+    return False
+
+
 def concretize(I, v, model, memo):
     """value of a (possibly symbolic) pyvc object graph under a model: a graph of native scalars and Py* objects"""
     if v is None or isinstance(v, (bool, int, float, str)):
@@ -49,6 +76,8 @@ def concretize(I, v, model, memo):
     if isinstance(v, SymVal):
         if v.k == 'enum':
             raise NoRendering('symbolic enum')
+        if has_uninterpreted(v.t):
+            raise NoRendering('value of an uninterpreted library function')
         x = ops.model_value(model, v)
         if isinstance(x, Fraction):
             return float(x)
@@ -114,7 +143,34 @@ def concretize(I, v, model, memo):
         l = PyList(items, v.cls)
         memo[id(v)] = l
         return l
+    if isinstance(v, Struct) and v.tag.startswith('str.'):
+        f = [concretize(I, x, model, memo) for x in v.fields]
+        try:
+            if v.tag == 'str.format':
+                fmt, args, kwargs = f
+                return fmt.format(*[_fmt_arg(x) for x in args], **{k: _fmt_arg(x) for k, x in kwargs})
+            if v.tag == 'str.concat':
+                return ''.join(f)
+            recv, args, kwargs = f
+            return getattr(recv, v.tag[4:])(*args, **dict(kwargs))
+        except NoRendering:
+            raise
+        except Exception as e:
+            raise NoRendering('string term %s: %r' % (v.tag, e))
+    if isinstance(v, SymSet):
+        # sets of small naturals (hours, minutes, zone numbers): members among 0..99 under the model
+        s = PySet(i for i in range(100) if z3.is_true(model.eval(z3.Select(v.m, i), model_completion=True)))
+        memo[id(v)] = s
+        return s
     raise NoRendering(type(v).__name__)
+
+
+def _fmt_arg(x):
+    if isinstance(x, (PyObj, PyList, PyDict, PySet)):
+        raise NoRendering('format of an object')
+    if isinstance(x, EnumMember):
+        raise NoRendering('format of an enum member')
+    return x
 
 
 # ---------------------------------------------------------------------------------------------- comparison
@@ -162,12 +218,19 @@ def same_json(a, b, ida, idb, path, diffs, tol=1e-9):
             if ida.get(xa, xb) != xb or idb.get(xb, xa) != xa:
                 diffs.append('%s: aliasing differs' % path)
             return
-        # one side re-encoded an object the other side already showed: accept when the ids correspond
-        if ta == 'ref' and ida.get(xa) == xb:
+        # one side shows again (in full) an object the other side only refers to: compare it with what the
+        # reference stands for (the two encoders number objects differently; cycles are cut by the visited set)
+        seen_a, seen_b, visited = ida.setdefault('__objs__', {}), idb.setdefault('__objs__', {}), ida.setdefault('__visited__', set())
+        ra = seen_a.get(xa) if ta == 'ref' else a
+        rb = seen_b.get(xb) if tb == 'ref' else b
+        if ra is None or rb is None:
+            diffs.append('%s: aliasing differs (%s vs %s)' % (path, ta, tb))
             return
-        if tb == 'ref' and idb.get(xb) == xa:
+        key = (ra.get('id'), rb.get('id'))
+        if key in visited:
             return
-        diffs.append('%s: aliasing differs (%s vs %s)' % (path, ta, tb))
+        visited.add(key)
+        same_json(ra, rb, ida, idb, path, diffs, tol)
         return
     if ta == 'deque':
         ta = 'list'
@@ -177,6 +240,10 @@ def same_json(a, b, ida, idb, path, diffs, tol=1e-9):
     if 'id' in a and 'id' in b:
         ida[a['id']] = b['id']
         idb[b['id']] = a['id']
+    if 'id' in a:
+        ida.setdefault('__objs__', {})[a['id']] = a
+    if 'id' in b:
+        idb.setdefault('__objs__', {})[b['id']] = b
     if ta in ('tuple', 'list'):
         if len(a['v']) != len(b['v']):
             diffs.append('%s: length %d vs %d' % (path, len(a['v']), len(b['v'])))
